@@ -55,6 +55,7 @@ type Contract struct {
 	HasMod    bool
 	LoopInv   map[int][]*Clause
 	LoopStep  map[int][]*Clause
+	LoopEntry map[int][]*Clause // `loop K entry <spec>`: checked once where the loop is entered, never assumed
 	AtSend    []*AtSend
 	AtCall    []*AtSend // Field = callee name
 	AtRead    []*AtSend // Field = name of a struct field: checked just before every load of that field
@@ -612,8 +613,8 @@ func (e *Engine) loadContractFile(path string, pkg *types.Package) error {
 			}
 		case "loop":
 			// loop K invariant <spec>
-			if len(fields) < 3 || (fields[2] != "invariant" && fields[2] != "step" && fields[2] != "decreases") {
-				return fail(fmt.Errorf("expected: loop K invariant|step|decreases <spec>"))
+			if len(fields) < 3 || (fields[2] != "invariant" && fields[2] != "step" && fields[2] != "decreases" && fields[2] != "entry") {
+				return fail(fmt.Errorf("expected: loop K invariant|step|entry|decreases <spec>"))
 			}
 			k, err := strconv.Atoi(fields[1])
 			if err != nil {
@@ -629,6 +630,11 @@ func (e *Engine) loadContractFile(path string, pkg *types.Package) error {
 					lastClause.Label = "decreases " + m
 				}
 				cur.LoopStep[k] = append(cur.LoopStep[k], lastClause)
+			} else if fields[2] == "entry" {
+				if cur.LoopEntry == nil {
+					cur.LoopEntry = map[int][]*Clause{}
+				}
+				cur.LoopEntry[k] = append(cur.LoopEntry[k], lastClause)
 			} else if fields[2] == "step" {
 				cur.LoopStep[k] = append(cur.LoopStep[k], lastClause)
 			} else {
@@ -744,6 +750,9 @@ func (e *Engine) finishContracts() error {
 			all = append(all, cs...)
 		}
 		for _, cs := range c.LoopStep {
+			all = append(all, cs...)
+		}
+		for _, cs := range c.LoopEntry {
 			all = append(all, cs...)
 		}
 		for _, as := range c.AtSend {
@@ -906,6 +915,12 @@ func mergeContracts(old, c *Contract) {
 	}
 	for k, v := range c.LoopStep {
 		old.LoopStep[k] = append(old.LoopStep[k], v...)
+	}
+	for k, v := range c.LoopEntry {
+		if old.LoopEntry == nil {
+			old.LoopEntry = map[int][]*Clause{}
+		}
+		old.LoopEntry[k] = append(old.LoopEntry[k], v...)
 	}
 	for _, p := range c.Props {
 		dup := false
